@@ -561,6 +561,15 @@ class RouteController:
                 self._neighbor_cache[route_entry.next_hop_ip] = next_hop
         else:
             logger.info("Neighbor %s does not exist", route_entry.next_hop_ip)
+            self._forget_unresolved_route(route_entry)
+
+    def _forget_unresolved_route(self, route_entry: RouteEntry) -> None:
+        """Drops a deleted route that is still waiting for its next hop's MAC address."""
+        pending_routes = self._unresolved_arp_queries_cache.get(route_entry.next_hop_ip)
+        if pending_routes and route_entry in pending_routes:
+            pending_routes.remove(route_entry)
+            if not pending_routes:
+                del self._unresolved_arp_queries_cache[route_entry.next_hop_ip]
 
     def _ping_missing_entries(self):
         """Pings missing entries every 10 seconds.
